@@ -19,16 +19,42 @@ Import ListNotations.
 
 (* per-core pieces, memory, per-NUMA memory: every history, every oracle *)
 Theorem C08_exact_int : forall (info : node_info) (h : list op),
-  usage_zero (ni_usage info) -> Forall op_wf h ->
+  inv_valid (mkState info []) -> usage_zero (ni_usage info) -> Forall op_wf h ->
   usage_exact_int (ni_usage (st_info (run (mkState info []) h))) (st_live (run (mkState info []) h)).
 Proof. exact exact_int_all_histories. Qed.
 Print Assumptions C08_exact_int.
 
 (* the invariant is inductive: it is preserved from ANY state in which it holds *)
 Theorem C08_step_int : forall (s : state) (o : op),
-  op_wf o -> inv_int s -> inv_int (sr_state (step s o)).
+  op_wf o -> inv_valid s -> inv_int s -> inv_int (sr_state (step s o)).
 Proof. exact step_inv_int. Qed.
 Print Assumptions C08_step_int.
+
+(* the stored record stays valid (passes Validate, usage maps are Go maps) *)
+Theorem C08_step_valid : forall (o : op) (s : state), inv_valid s -> inv_valid (sr_state (step s o)).
+Proof. exact step_valid. Qed.
+Print Assumptions C08_step_valid.
+
+(* a manager-level operation that fails because ANOTHER plugin of the manager
+   refuses the commit leaves this plugin's usage exactly as before: cobalt writes
+   the saved "before" usage back, the write is always accepted from a valid
+   state, and the maps, memory (and, by C08_step_cpu, the cpu total) are those
+   of the state before; the live set is untouched.  (An operation refused by
+   this plugin itself stores nothing: every theorem above covers that case.) *)
+Theorem C08_failed_commit : forall (s : state) (inner : op), inv_valid s ->
+  let r := step s (OpFailedCommit inner) in
+  sr_err r = true /\ st_live (sr_state r) = st_live s /\
+  (st_info (sr_state r) = st_info s \/
+   st_info (sr_state r) = mkNI (ni_cap (st_info s)) (written_back (ni_usage (st_info s)))).
+Proof. exact failed_commit_state. Qed.
+Print Assumptions C08_failed_commit.
+
+Theorem C08_written_back : forall u : node_resource,
+  NoDup (keys (nr_cpumap u)) -> NoDup (keys (nr_numamem u)) ->
+  nr_cpumap (written_back u) = nr_cpumap u /\ nr_numamem (written_back u) = nr_numamem u /\
+  nr_mem (written_back u) = nr_mem u.
+Proof. exact written_back_maps. Qed.
+Print Assumptions C08_written_back.
 
 (* RollbackAlloc / RollbackRealloc (Decr of what was just Incr-ed) and the
    re-adding rollback of a release restore the usage *)
@@ -56,13 +82,14 @@ Print Assumptions C08_rollback_release_int.
    usage.CPU is exactly (as a real value; the sign of a zero is not tracked) the
    double nearest to the exact decimal sum of the live workloads' requests. *)
 Theorem C08_exact_cpu : forall (info : node_info) (h : list op),
+  inv_valid (mkState info []) ->
   f_finite (nr_cpu (ni_usage info)) = true -> B2R 53 1024 (nr_cpu (ni_usage info)) = 0%R ->
   Forall op_grid h -> bounded_run (mkState info []) h ->
   inv_cpu (run (mkState info []) h).
 Proof. exact cpu_all_histories. Qed.
 Print Assumptions C08_exact_cpu.
 
-Theorem C08_step_cpu : forall (s : state) (o : op), op_grid o -> inv_cpu s ->
+Theorem C08_step_cpu : forall (s : state) (o : op), op_grid o -> inv_valid s -> inv_cpu s ->
   (ktotal (st_live (sr_state (step s o))) <= BND)%Z -> inv_cpu (sr_state (step s o)).
 Proof. exact cpu_step. Qed.
 Print Assumptions C08_step_cpu.
